@@ -1,4 +1,4 @@
-CONSTANTS MaxTrees = 1 SimDepth = 99 Deep = FALSE CancelFirst = 0
+CONSTANTS MaxTrees = 1 SimDepth = 99 Deep = FALSE CancelFirst = 1
 INIT Init
 NEXT Next
 INVARIANTS OwnOnly
